@@ -31,6 +31,7 @@ struct Worker {
     last_activity: Instant,
     last_journal: Option<(u64, String)>,
     skip: Vec<u64>,
+    fast_forward: u64,
     restarts: u32,
     done: bool,
     result: Option<Value>,
@@ -44,6 +45,7 @@ fn spawn_worker(
     shard: usize,
     nshards: usize,
     skip: &[u64],
+    fast_forward: u64,
 ) -> (Child, Receiver<String>) {
     let skip_s = skip.iter().map(|h| h.to_string()).collect::<Vec<_>>().join(",");
     let mut child = Command::new(exe)
@@ -54,6 +56,7 @@ fn spawn_worker(
         .arg(shard.to_string())
         .arg(nshards.to_string())
         .arg(skip_s)
+        .arg(fast_forward.to_string())
         .stdin(Stdio::null())
         .stdout(Stdio::piped())
         .stderr(Stdio::piped())
@@ -365,7 +368,7 @@ pub fn check(id: &str, tier: Tier, seed: u64) -> i32 {
     let timeout = Duration::from_secs(prop.case_timeout_s());
     let mut workers: Vec<Worker> = (0..nshards)
         .map(|s| {
-            let (child, rx) = spawn_worker(&exe, id, tier, seed, s, nshards, &[]);
+            let (child, rx) = spawn_worker(&exe, id, tier, seed, s, nshards, &[], 0);
             Worker {
                 shard: s,
                 child,
@@ -373,6 +376,7 @@ pub fn check(id: &str, tier: Tier, seed: u64) -> i32 {
                 last_activity: Instant::now(),
                 last_journal: None,
                 skip: vec![],
+                fast_forward: 0,
                 restarts: 0,
                 done: false,
                 result: None,
@@ -490,6 +494,10 @@ pub fn check(id: &str, tier: Tier, seed: u64) -> i32 {
                     // byte-sequence runners keep the current case in a file instead of journaling it
                     let cur = format!("{}/replays/.cur-{}-{}.tmp", root, id, w.shard);
                     if let Ok(t) = std::fs::read_to_string(&cur) {
+                        if let Some(n) = serde_json::from_str::<Value>(&t).ok().and_then(|v| v["n"].as_u64()) {
+                            // the restarted shard need not execute the cases before this one again
+                            w.fast_forward = n;
+                        }
                         w.last_journal = Some((fnv(t.as_bytes()), t));
                     }
                     let _ = std::fs::remove_file(&cur);
@@ -570,7 +578,7 @@ pub fn check(id: &str, tier: Tier, seed: u64) -> i32 {
                     w.done = true;
                     continue;
                 }
-                let (child, rx) = spawn_worker(&exe, id, tier, seed, w.shard, nshards, &w.skip);
+                let (child, rx) = spawn_worker(&exe, id, tier, seed, w.shard, nshards, &w.skip, w.fast_forward);
                 w.child = child;
                 w.rx = rx;
                 w.last_activity = Instant::now();
